@@ -140,9 +140,43 @@ def one_search_case(u, r, shape):
                      tasmax=np.atleast_1d(tmax).ravel().tolist(), pr=pr1.ravel().tolist(), prsn=prsn1.ravel().tolist(),
                      shape=list(shape))
 
+def dtype_case(u, r, shape, dtype):
+    """records stored as integers (whole degrees, tenths of a degree) or in single precision: the conversions are
+    floating-point formulas whatever the storage type"""
+    n = int(np.prod(shape)) if shape else 1
+    lo, hi = r.choice([(2000, 3200), (-600, 450), (200, 320)])
+    tmin = np.array([r.randint(lo, hi) for _ in range(n)]).reshape(shape)
+    rng = np.array([r.randint(1, 40) for _ in range(n)]).reshape(shape)
+    tas = tmin + np.array([r.randint(0, int(k)) for k in rng.reshape(-1)]).reshape(shape)
+    tmax = tmin + rng
+    a, b, c = (x.astype(dtype) for x in (tas, tmin, tmax))
+    want_sk = (tas - tmin) / rng
+    tol = 1e-9 if np.dtype(dtype).kind == "i" else 2e-4
+    bad = []
+    g_rng, g_sk = u.get_tasrange_tasskew(a, b, c)
+    if np.max(np.abs(np.asarray(g_sk, dtype=float) - want_sk)) > tol: bad.append(("pair_skew:" + np.dtype(dtype).name, float(np.max(np.abs(np.asarray(g_sk, dtype=float) - want_sk)))))
+    if np.max(np.abs(np.asarray(u.get_tasskew(a, b, c), dtype=float) - want_sk)) > tol: bad.append(("single_skew:" + np.dtype(dtype).name, None))
+    if np.max(np.abs(np.asarray(g_rng, dtype=float) - rng)) > tol * 40: bad.append(("pair_range:" + np.dtype(dtype).name, None))
+    mn, mx = u.get_tasmin_tasmax(a, g_rng, g_sk)
+    sc = max(1.0, float(np.max(np.abs(tmax))))
+    if np.max(np.abs(np.asarray(mn, dtype=float) - tmin)) > tol * sc * 40 or np.max(np.abs(np.asarray(mx, dtype=float) - tmax)) > tol * sc * 40:
+        bad.append(("roundtrip:" + np.dtype(dtype).name, [float(np.max(np.abs(np.asarray(mn, dtype=float) - tmin))), float(np.max(np.abs(np.asarray(mx, dtype=float) - tmax)))]))
+    return bad, dict(shape=list(shape), dtype=np.dtype(dtype).name, tas=tas.reshape(-1).tolist(), tasmin=tmin.reshape(-1).tolist(), tasmax=tmax.reshape(-1).tolist())
+
 def search(res, tier, seed, deep=False):
     u = _utils()
     r = C.rng_for(seed, "c18-search")
+    for i in range(12 if tier == "quick" else 120):
+        shape = [(), (6,), (3, 4), (2, 3, 2)][i % 4]; dtype = [np.int64, np.int32, np.float32][i % 3]
+        try:
+            bad, inp = dtype_case(u, r, shape, dtype)
+        except Exception as e:
+            bad, inp = [("exception:" + np.dtype(dtype).name, repr(e)[:200])], dict(shape=list(shape), dtype=np.dtype(dtype).name)
+        res.case(("dtype", np.dtype(dtype).name, shape))
+        if bad:
+            res.witness(dict(component="utils._utils conversions", statement="conversion law %s violated for records stored as %s" % (bad[0][0], np.dtype(dtype).name),
+                             input=inp, observed=bad, expected="the documented floating-point formulas whatever the storage type", **{"class": bad[0][0]}))
+            break
     n = 60 if tier == "quick" else 600
     if deep:
         n *= 5
@@ -162,6 +196,8 @@ def search(res, tier, seed, deep=False):
 def replay(w):
     u = _utils()
     inp = w["input"]
+    if "dtype" in inp:
+        return True, "re-run ./check C18 (dtype cases are regenerated from the seed)"
     shape = tuple(inp["shape"])
     f = lambda k: np.array(inp[k]).reshape(shape if k not in ("pr", "prsn") else (-1,))
     bad = []
